@@ -64,6 +64,8 @@ pub fn start_determining_calling_process_in_thread() {
     std::thread::Builder::new()
         .name("find_calling_process".into())
         .spawn(move || {
+            #[cfg(dandavison_delta_verif)]
+            crate::verif::sync("b_start", "");
             let calling_process = determine_calling_process();
             #[cfg(dandavison_delta_verif)]
             crate::verif::sync("b_compute", variant_name(&calling_process));
